@@ -210,6 +210,20 @@ pub fn run(ctx: &Ctx, rep: &mut Report) {
                             break;
                         } else {
                             rep.count("single_numeral_tokens_renormalised", 1);
+                            // the only licence to touch a lone numeral is to normalise it: the new form is the value
+                            // of the token itself (the plugin reads the normalised form of the token), whatever
+                            // numerals stand elsewhere in the sentence
+                            match crate::mon_c15::evaluate(&b.norm) {
+                                crate::mon_c15::Eval::Value(v) => {
+                                    rep.count("single_numeral_values_checked", 1);
+                                    if v != w.norm {
+                                        rep.violation("unmerged_token_changed", "path rewrite", &format!("lone numeral token {:?} (normalised form {:?} without the plugins, value {}) is given the normalised form {:?}", w.surface, b.norm, v, w.norm), "", scen());
+                                        failed = true;
+                                        break;
+                                    }
+                                }
+                                _ => rep.count("single_numeral_values_not_defined", 1),
+                            }
                         }
                     } else {
                         rep.count("unmerged_tokens_compared", 1);
